@@ -15,8 +15,14 @@ def run_models(v: Verdict, models: list[tuple[str, str]], expect_violation: dict
     """(M) model-check the specification itself.  A violation here is a bug of the model,
     i.e. a machinery error, never a verdict about /repo."""
     for module, cfg in models:
-        r = run_tlc(module, cfg, cont=False, timeout=timeout)
+        r = run_tlc(module, cfg, cont=False, timeout=timeout, extra=["-coverage", "1"])
         v.add_tlc(r)
+        # vacuity guard: per-action counts of this model run; actions never taken in ANY model of the
+        # check are listed in the evidence (their properties were not exercised on the model)
+        ac = v.cov.setdefault("model_action_counts", {})
+        for name, n in r.coverage.items():
+            ac[f"{module}.{name}"] = ac.get(f"{module}.{name}", 0) + n
+        v.cov["model_actions_never_taken"] = sorted(k for k, n in ac.items() if n == 0)
         if r.errors:
             raise Machinery(f"TLC error in model {module}/{cfg}: {r.errors[0][:800]}")
         if r.violations or r.deadlocks or r.temporal_violation:
